@@ -202,4 +202,178 @@ theorem run_fcalls : ∀ (fs : List FField) (s : State), s.state = .key → s.de
     rw [run_fcalls r s' hs' hd' hm', hout, hn']
     cases s.needsLineTerminator <;> simp [List.append_assoc]
 
+/-! ### `write_tape` on the tape of a flat document -/
+
+def scalTok (k : Scal) : Writer.Tok := if k.quoted then .quoted k.bytes else .unquoted k.bytes
+def opToks (o : TextTape.Op) : List Writer.Tok := if o = .eq then [] else [.operator (opW o)]
+
+theorem ofTT_scal (k : Scal) (X : Bytes) : ofTT (k.tok X).erase = scalTok k := by
+  simp only [Scal.tok, scalTok]; split <;> rfl
+
+theorem map_ofTT_toks (o : TextTape.Op) : o.toks.map ofTT = opToks o := by
+  cases o <;> rfl
+
+theorem tapeOfFlat_cons (it : FItem) (r : List FItem) :
+    tapeOfFlat (it :: r) = scalTok it.key :: (opToks it.op ++ scalTok it.val :: tapeOfFlat r) := by
+  obtain ⟨k, o, v⟩ := it
+  simp [tapeOfFlat, FItem.content, contentFlat, ofTT_scal, map_ofTT_toks]
+
+theorem writeValue_scal (toks : List Tok) (f i : Nat) (s : State) (v : Scal)
+    (h : toks[i]? = some (scalTok v)) : writeValue toks (f + 1) i s = writeRaw s v.text := by
+  unfold writeValue
+  unfold scalTok at h
+  by_cases hq : v.quoted = true
+  · simp [hq] at h
+    simp [h, writeEscapedQuotes, writeRaw, Scal.text, hq]
+  · simp [hq] at h
+    simp [h, writeUnquoted, writeRaw, Scal.text, hq]
+
+theorem nextIdx_scal (toks : List Tok) (n i : Nat) (v : Scal) (h : toks[i]? = some (scalTok v)) :
+    nextIdx toks (n + 1) i = .ok (i + 1) := by
+  unfold nextIdx
+  unfold scalTok at h
+  by_cases hq : v.quoted = true
+  · simp [hq] at h; simp [h]
+  · simp [hq] at h; simp [h]
+
+theorem idx0 (pre : List Tok) (a : Tok) (l : List Tok) : (pre ++ a :: l)[pre.length]? = some a := by simp
+theorem idx1 (pre : List Tok) (a b : Tok) (l : List Tok) : (pre ++ a :: b :: l)[pre.length + 1]? = some b := by
+  simp
+theorem idx2 (pre : List Tok) (a b c : Tok) (l : List Tok) : (pre ++ a :: b :: c :: l)[pre.length + 2]? = some c := by
+  simp
+
+theorem writeOperator_opW (s : State) (o : TextTape.Op) (hm : s.mixedMode = .disabled) :
+    writeOperator s (opW o) = { s with out := s.out ++ sepText o, mode := .object, state := .objectValue } := by
+  have := writeOperator_kvs s (opW o) hm
+  have h : opTT (opW o) = o := by cases o <;> rfl
+  rwa [h] at this
+
+def bindE (A : Except WErr State) (B : State → Except WErr State) : Except WErr State :=
+  match A with
+  | .error e => .error e
+  | .ok s => B s
+
+theorem match_assoc (A : Except WErr State) (B C : State → Except WErr State) :
+    bindE (bindE A B) C = bindE A (fun s1 => bindE (B s1) C) := by
+  cases A <;> rfl
+
+theorem core_unfold_plain (toks : List Tok) (f i e : Nat) (s : State) (k v : Scal) (hi : i < e)
+    (h0 : toks[i]? = some (scalTok k)) (h1 : toks[i + 1]? = some (scalTok v)) :
+    writeObjectCore toks (f + 1 + 1) i e s =
+      bindE (writeRaw s k.text) (fun s1 => bindE (writeRaw s1 v.text)
+        (fun s2 => writeObjectCore toks (f + 1) (i + 2) e s2)) := by
+  have hn := nextIdx_scal toks toks.length (i + 1) v h1
+  have hv : ∀ s1, writeValue toks (f + 1) (i + 1) s1 = writeRaw s1 v.text :=
+    fun s1 => writeValue_scal toks f (i + 1) s1 v h1
+  have hnl : ¬ (i ≥ e) := by omega
+  conv => lhs; unfold writeObjectCore
+  simp only [hnl, if_false, h0, h1]
+  unfold scalTok at *
+  by_cases hk : k.quoted = true <;> by_cases hq : v.quoted = true <;>
+    simp only [hk, hq, if_true, if_false, Bool.false_eq_true] at h0 h1 hn hv ⊢ <;>
+    simp only [hn, hv, writeEscapedQuotes, writeUnquoted, writeRaw, Scal.text, hk, if_true, if_false,
+      Bool.false_eq_true, List.cons_append, List.nil_append] <;>
+    exact match_assoc _ _ _
+
+theorem core_unfold_op (toks : List Tok) (f i e : Nat) (s : State) (k v : Scal) (o : Writer.Op) (hi : i < e)
+    (h0 : toks[i]? = some (scalTok k)) (h1 : toks[i + 1]? = some (.operator o))
+    (h2 : toks[i + 2]? = some (scalTok v)) :
+    writeObjectCore toks (f + 1 + 1) i e s =
+      bindE (writeRaw s k.text) (fun s1 => bindE (writeRaw (writeOperator s1 o) v.text)
+        (fun s2 => writeObjectCore toks (f + 1) (i + 3) e s2)) := by
+  have hn := nextIdx_scal toks toks.length (i + 2) v h2
+  have hv : ∀ s1, writeValue toks (f + 1) (i + 2) s1 = writeRaw s1 v.text :=
+    fun s1 => writeValue_scal toks f (i + 2) s1 v h2
+  have hnl : ¬ (i ≥ e) := by omega
+  conv => lhs; unfold writeObjectCore
+  simp only [hnl, if_false, h0, h1]
+  unfold scalTok at *
+  by_cases hk : k.quoted = true <;>
+    simp only [hk, if_true, if_false, Bool.false_eq_true] at h0 ⊢ <;>
+    simp only [hn, hv, writeEscapedQuotes, writeUnquoted, writeRaw, Scal.text, hk, if_true, if_false,
+      Bool.false_eq_true, List.cons_append, List.nil_append] <;>
+    exact match_assoc _ _ _
+
+/-- the writer after a root-level key -/
+def afterKey (s : State) (k : Bytes) : State :=
+  { s with out := s.out ++ (if s.needsLineTerminator then [10] else []) ++ k,
+           state := .keyValueSeparator, needsLineTerminator := false }
+
+theorem core_flat (toks : List Tok) : ∀ (doc : List FItem) (pre : List Tok) (fuel : Nat) (s : State),
+    toks = pre ++ tapeOfFlat doc → doc.length + 2 ≤ fuel → s.state = .key → s.depth = [] →
+    s.mixedMode = .disabled →
+    ∃ s', writeObjectCore toks fuel pre.length toks.length s = .ok s' ∧
+      s'.out = s.out ++ flatOut doc (!s.needsLineTerminator)
+  | [], pre, fuel, s, ht, hf, _, _, _ => by
+    obtain ⟨f, rfl⟩ : ∃ f, fuel = f + 1 := ⟨fuel - 1, by omega⟩
+    refine ⟨s, ?_, by simp [flatOut]⟩
+    have : toks.length = pre.length := by rw [ht]; simp [tapeOfFlat, contentFlat]
+    unfold writeObjectCore
+    simp [this]
+  | it :: r, pre, fuel, s, ht, hf, hs, hd, hm => by
+    obtain ⟨f, rfl⟩ : ∃ f, fuel = f + 1 + 1 := ⟨fuel - 2, by simp at hf; omega⟩
+    rw [tapeOfFlat_cons] at ht
+    have hlen : pre.length < toks.length := by rw [ht]; simp
+    have h0 : toks[pre.length]? = some (scalTok it.key) := by rw [ht]; exact idx0 _ _ _
+    have hfl : r.length + 2 ≤ f + 1 := by simp at hf; omega
+    have hkey : writeRaw s it.key.text = .ok (afterKey s it.key.text) := writeRaw_key s _ hs hd
+    by_cases ho : it.op = .eq
+    · -- plain `=`: key, value
+      simp only [opToks, ho, if_true, List.nil_append] at ht
+      have h1 : toks[pre.length + 1]? = some (scalTok it.val) := by rw [ht]; exact idx1 _ _ _ _
+      rw [core_unfold_plain toks f pre.length toks.length s it.key it.val hlen h0 h1, hkey]
+      simp only [bindE]
+      rw [writeRaw_kvs (afterKey s it.key.text) _ rfl rfl]
+      simp only []
+      have ih := core_flat toks r (pre ++ [scalTok it.key, scalTok it.val]) (f + 1)
+        { afterKey s it.key.text with out := (afterKey s it.key.text).out ++ [61] ++ it.val.text, state := .key, needsLineTerminator := true }
+        (by rw [ht]; simp) hfl rfl hd hm
+      obtain ⟨s', hw, hout⟩ := ih
+      refine ⟨s', ?_, ?_⟩
+      · simpa using hw
+      · rw [hout]
+        simp only [afterKey]
+        cases hnl : s.needsLineTerminator <;> simp [flatOut, sepText, ho, List.append_assoc]
+    · -- any other operator: key, operator token, value
+      simp only [opToks, ho, if_false, List.cons_append, List.nil_append] at ht
+      have h1 : toks[pre.length + 1]? = some (.operator (opW it.op)) := by rw [ht]; exact idx1 _ _ _ _
+      have h2 : toks[pre.length + 2]? = some (scalTok it.val) := by rw [ht]; exact idx2 _ _ _ _ _
+      rw [core_unfold_op toks f pre.length toks.length s it.key it.val (opW it.op) hlen h0 h1 h2, hkey]
+      simp only [bindE]
+      rw [writeOperator_opW (afterKey s it.key.text) it.op hm]
+      rw [writeRaw_objectValue _ _ rfl rfl]
+      simp only []
+      have ih := core_flat toks r (pre ++ [scalTok it.key, .operator (opW it.op), scalTok it.val]) (f + 1)
+        { afterKey s it.key.text with out := (afterKey s it.key.text).out ++ sepText it.op ++ it.val.text, mode := .object, state := .key, needsLineTerminator := true }
+        (by rw [ht]; simp) hfl rfl hd hm
+      obtain ⟨s', hw, hout⟩ := ih
+      refine ⟨s', ?_, ?_⟩
+      · simpa using hw
+      · rw [hout]
+        simp only [afterKey]
+        cases hnl : s.needsLineTerminator <;> simp [flatOut, List.append_assoc]
+
+
+theorem tapeOfFlat_length : ∀ (doc : List FItem), doc.length ≤ (tapeOfFlat doc).length
+  | [] => by simp
+  | it :: r => by
+    have := tapeOfFlat_length r
+    rw [tapeOfFlat_cons]
+    simp only [List.length_cons, List.length_append]
+    omega
+
+/-- `write_tape` over the tape of a flat document writes the flat layout -/
+theorem writeTape_flat (doc : List FItem) (c : UInt8) (f : Nat) :
+    ∃ s, writeTape (tapeOfFlat doc) (State.init c f) = .ok s ∧ s.out = flatOut doc true := by
+  have hl := tapeOfFlat_length doc
+  obtain ⟨s, hw, hout⟩ := core_flat (tapeOfFlat doc) doc [] (4 * (tapeOfFlat doc).length + 8) (State.init c f)
+    (by simp) (by omega) rfl rfl rfl
+  exact ⟨s, by simpa [writeTape] using hw, by simpa [State.init] using hout⟩
+
+theorem ofTT_erase (t : TextTape.Tok) : ofTT t.erase = ofTT t := by
+  cases t <;> rfl
+
+theorem map_ofTT_erase (T : List TextTape.Tok) : (T.map TextTape.Tok.erase).map ofTT = T.map ofTT := by
+  simp [List.map_map, Function.comp_def, ofTT_erase]
+
 end Jomini.Writer
